@@ -54,6 +54,12 @@ def _targets(st, fl):
     add("filter(predicate)", False, lambda b, cb: b.tree.filter(cb), lambda node: len(node.children) % 2 == 0)
     add("filter(predicate=False)", False, lambda b, cb: b.tree.filter(cb), lambda node: False)
     add("sort(key)", False, lambda b, cb: b.tree.sort(key=cb, reverse=True), lambda node: node.name)
+    leaves = [i for i in live if not st["kids"][i - 1]]
+    items = [{"data": 3, "children": [{"data": 4}, {"data": 5}]}, {"data": 4}, {"data": 5, "children": [{"data": 3}]}]
+    for i in leaves[:2]:
+        # from_dict() below a node of an existing tree; the mapper rebuilds the data object of each item
+        add(f"node{i}.from_dict(mapper)", False,
+            lambda b, cb, i=i: b.nodes[i].from_dict(items, mapper=cb), lambda parent, item: fl.data(item["data"]))
     for i in live[:3]:
         add(f"node{i}.filter(predicate)", False, lambda b, cb, i=i: b.nodes[i].filter(cb), lambda node: False)
         add(f"node{i}.sort_children(key)", False, lambda b, cb, i=i: b.nodes[i].sort_children(key=cb, deep=True),
@@ -72,6 +78,10 @@ def _calc_targets(st, fl):
     for i in range(1, min(n, 3) + 1):
         T[f"set_data@{i}"] = (False, lambda b, i=i: b.nodes[i].set_data(fl.data(3), with_clones=False))
         T[f"append_sibling@{i}"] = (False, lambda b, i=i: b.nodes[i].append_sibling(fl.data(3)))
+    leaves = [i for i in range(1, n + 1) if not st["kids"][i - 1]]
+    for i in leaves[:2]:
+        T[f"from_dict@{i}"] = (False, lambda b, i=i: b.nodes[i].from_dict(
+            [{"data": fl.data(3), "children": [{"data": fl.data(4)}]}, {"data": fl.data(4)}]))
     T["find_all(data)"] = (True, lambda b: b.tree.find_all(fl.data(1)))
     T["contains"] = (True, lambda b: fl.data(2) in b.tree)
     T["getitem"] = (True, lambda b: b.tree[fl.data(1)])
